@@ -314,15 +314,6 @@ def _only_size(e, n):
     return True
 
 
-@findings.predicate("c04_randsz_with_element_constraints")
-def pred_randsz(case):
-    """a random-size list whose elements (foreach / sum / unique) are constrained: the library fixes the size before
-    the elements are considered"""
-    if case.get("objlist"):
-        return case.get("ctor") == "randsz_list_t"
-    return "randsz-size-coupled-to-elements" in shape_of(case)
-
-
 def V(kind, detail, case, extra=None):
     v = {"property": PROPERTY, "kind": kind, "detail": detail, "case": case, "text": text_of(case)}
     if extra:
@@ -1212,7 +1203,7 @@ def body(case, acc):
     for op in case["ops"]:
         acc.label("op:" + op[0])
     for f in shape_of(case):
-        acc.label("known-finding shape: " + f)
+        acc.label("shape: " + f)
     return vios
 
 
